@@ -31,6 +31,7 @@ func (k Kind) String() string { return [...]string{"unary", "client", "server", 
 // HandlerCfg is the configuration of one shared Handler set (one Handler per
 // RPC kind is built from it).
 type HandlerCfg struct {
+	Scratch     bool     // as ClientCfg.Scratch, on the handler side
 	Comp        []string // custom algorithms in registration order (gzip is always registered first by the library)
 	NilComp     []string // names passed to WithCompression with nil constructors: documented as a no-op
 	CompressMin int
@@ -53,6 +54,7 @@ type ClientCfg struct {
 	Accept       []string // custom algorithms in registration order (gzip is registered first by the library)
 	CompressMin  int
 	ReadMax      int
+	Scratch      bool // an interceptor receives every streamed message into one scratch value of its own (conn-level Receive into a reused message) and copies it to the caller's
 	Hedge        bool // a client interceptor opens a second (unused) connection per streaming call, as hedging interceptors do
 	DeadlineIcpt bool // a client interceptor derives the context the call runs under (default-timeout interceptor)
 }
